@@ -2,8 +2,7 @@
 Specification side of C13 / C08 (definitions only; part of the trusted statements):
 the invariant `JInv`, the abstract store `JSpec` of the property text
 ("a map from (session, direction, sequence number) to message bytes plus two counters per
-session"), the abstraction function `abs`, the abstract effect of every call, and the
-excluded set `Op.HalfApplies` of the `_partial` theorems (SQLite INTEGER is 64 bits).
+session"), the abstraction function `abs`, the abstract effect of every call.
 -/
 import AsyncFix.Model.JournalDB
 namespace AsyncFix.Model.Journal
@@ -86,11 +85,12 @@ def JSpec.setNext (S : JSpec) (key o i : Int) : JSpec :=
       store := fun k d m =>
         if k = key ∧ d.pick o i ≤ m then none else S.store k d m }
 
-/-- set_seq_num on the abstract journal: an assertion failure or an overflow while binding the
-UPDATE changes nothing; otherwise `setNext` -/
+/-- set_seq_num on the abstract journal: an assertion failure, or a number SQLite cannot hold
+(OverflowError, rolled back), changes nothing; otherwise `setNext` -/
 def JSpec.setSeqNum (S : JSpec) (h : Handle) (out inn : Option Int) : JSpec :=
   if out.any (· ≤ 0) || inn.any (· ≤ 0) then S
-  else if !(fits (effIn h inn - 1) && fits (effOut h out - 1) && fits h.key) then S
+  else if !(fits (effIn h inn - 1) && fits (effOut h out - 1) && fits h.key &&
+      fits (effIn h inn) && fits (effOut h out)) then S
   else S.setNext h.key (effOut h out) (effIn h inn)
 
 /-- state effect of one call on the abstract journal -/
@@ -109,17 +109,6 @@ def JSpec.IsRange (S : JSpec) (key : Int) (dir : Dir) (lo hi : BVal) (ms : List 
     seqs.Pairwise (· < ·) ∧
     (∀ n, n ∈ seqs ↔ (lo.le n = true ∧ hi.ge n = true ∧ (S.store key dir n).isSome)) ∧
     ms = seqs.filterMap (S.store key dir)
-
-/-- The excluded set of the `_partial` theorems: a `set_seq_num` whose UPDATE can be bound but
-whose effective next inbound or outbound number is exactly 2⁶³ (does not fit SQLite's INTEGER), so
-that binding a DELETE raises OverflowError after the UPDATE was executed and before the commit
-(known finding C08-set-seq-num-overflow-half-applied, Findings/C08.lean). -/
-def Op.HalfApplies : Op → Bool
-  | .setSeqNum h out inn =>
-    !(out.any (· ≤ 0) || inn.any (· ≤ 0)) &&
-    (fits (effIn h inn - 1) && fits (effOut h out - 1) && fits h.key) &&
-    !(fits (effIn h inn) && fits (effOut h out))
-  | _ => false
 
 /-- no uncommitted change: what the connection sees is what the file holds -/
 def Conn.Clean (c : Conn) : Prop := c.working = c.committed
